@@ -100,29 +100,38 @@ fn check_json(case: &Case) -> Value {
     Some(m) => v["message"].as_str() == Some(m.as_str()),
     None => v.get("message").is_none(),
   });
-  // every custom field at the place the mode promises: nested under "fields", or at top level when flattened
-  let holder = if case.flat { Some(&v) } else { v.get("fields") };
+  // a custom field is looked for under "fields" and, with flatten_fields, at top level; it round-trips if one
+  // of these places holds the value that went in (the statement does not say where a field has to live)
   let (mut present, mut equal, mut nonfinite) = (true, true, false);
   let mut lost: Vec<String> = Vec::new();
   for (k, val) in &e.fields {
-    let got = holder.and_then(|h| h.get(k));
-    match (got, json_value_of(val)) {
-      (None, _) => {
-        present = false;
-        equal = false;
-        lost.push(k.clone());
+    let mut places: Vec<&Value> = Vec::new();
+    if let Some(g) = v.get("fields").and_then(|h| h.get(k)) {
+      places.push(g);
+    }
+    if case.flat {
+      if let Some(g) = v.get(k) {
+        places.push(g);
       }
-      (Some(g), Some(want)) => {
-        let same = match (g.as_f64(), want.as_f64()) {
+    }
+    if places.is_empty() {
+      present = false;
+      equal = false;
+      lost.push(k.clone());
+      continue;
+    }
+    match json_value_of(val) {
+      Some(want) => {
+        let same = places.iter().any(|g| match (g.as_f64(), want.as_f64()) {
           (Some(a), Some(b)) if g.is_number() && want.is_number() => a == b,
-          _ => *g == want,
-        };
+          _ => **g == want,
+        });
         if !same {
           equal = false;
           lost.push(k.clone());
         }
       }
-      (Some(_), None) => nonfinite = true, // JSON has no literal for it: only presence is observed
+      None => nonfinite = true, // JSON has no literal for it: only presence is observed
     }
   }
   rec["fields_present"] = json!(present);
@@ -264,6 +273,52 @@ fn pattern_events() -> Vec<(String, LogEvent)> {
   v
 }
 
+/// The conversion characters of a pattern, scanned by the documented grammar
+///   %[-]<digits>?<letter>({<options>})?   |   %%   |   literal text
+/// (leftmost match, a directive is preferred over an escaped percent).  This classifies the generated input
+/// ("does the pattern ask for the message?"); it is not an expectation about the output.
+fn directives(pat: &str) -> Vec<char> {
+  let b: Vec<char> = pat.chars().collect();
+  let mut out = Vec::new();
+  let mut i = 0;
+  while i < b.len() {
+    if b[i] != '%' {
+      i += 1;
+      continue;
+    }
+    // try a directive
+    let mut j = i + 1;
+    let mut k = j;
+    if k < b.len() && b[k] == '-' {
+      k += 1;
+    }
+    let d0 = k;
+    while k < b.len() && b[k].is_ascii_digit() {
+      k += 1;
+    }
+    if k > d0 {
+      j = k; // padding present (sign only counts together with digits)
+    }
+    if j < b.len() && b[j].is_ascii_alphabetic() {
+      out.push(b[j]);
+      j += 1;
+      if j < b.len() && b[j] == '{' {
+        if let Some(close) = b[j + 1..].iter().position(|c| *c == '}') {
+          if close >= 1 {
+            j = j + 1 + close + 1;
+          }
+        }
+      }
+      i = j;
+    } else if i + 1 < b.len() && b[i + 1] == '%' {
+      i += 2;
+    } else {
+      i += 1;
+    }
+  }
+  out
+}
+
 pub fn run_pattern(a: &Args) {
   let out = a.get("out", "/dev/stdout");
   let mut w = std::io::BufWriter::new(std::fs::File::create(&out).expect("create out"));
@@ -314,17 +369,8 @@ pub fn run_pattern(a: &Args) {
   let (mut n, mut panics) = (0u64, 0u64);
   let mut recs: Vec<Value> = Vec::new();
   for (pi, pat) in patterns.iter().enumerate() {
-    // a pattern "has %m" if, after removing %% pairs, a message directive remains
-    let has_m = {
-      let stripped = pat.replace("%%", "");
-      let re_m = stripped.match_indices('%').any(|(i, _)| {
-        let rest = &stripped[i + 1..];
-        let rest = rest.strip_prefix('-').unwrap_or(rest);
-        let rest = rest.trim_start_matches(|c: char| c.is_ascii_digit());
-        rest.starts_with('m')
-      });
-      re_m
-    };
+    let has_m = directives(pat).contains(&'m');
+    let pad_min = pat.contains("%-2147483648");
     let fmt = std::panic::catch_unwind(|| PatternFormatter::new(pat));
     for (ei, (ename, ev)) in events.iter().enumerate() {
       // every pattern on two events, the padded single atoms on all of them
@@ -332,7 +378,7 @@ pub fn run_pattern(a: &Args) {
         continue;
       }
       n += 1;
-      let mut rec = json!({"k": "pat", "pat": pat, "ev": ename, "has_m": has_m});
+      let mut rec = json!({"k": "pat", "pat": pat, "ev": ename, "has_m": has_m, "pad_min": pad_min});
       match &fmt {
         Err(_) => {
           rec["res"] = json!("panic:new");
